@@ -53,7 +53,11 @@ class C11(C10):
                         if owner == iv["ent"] and a["name"] == iv["attr"]:
                             if x["id"] in pm.refs_of(v, []):
                                 holders.append(y["id"])
-                out[(anc.lower(), iv["name"].lower())] = sorted(holders)
+                if not iv.get("agg") and len(set(holders)) != 1:
+                    # a single-valued inverse constrains the population to exactly one referrer; with none or several the file does
+                    # not conform in that respect and the statement ("holds that one instance") does not say what the attribute holds
+                    continue
+                out[(anc.lower(), iv["name"].lower())] = sorted(set(holders))
         return out
 
     def judge(self, plan, obs):
